@@ -588,3 +588,69 @@ def filling_emplacers(F, R):
         cl = [ab(r) for c in closures_of(F, b) for r in the_return(Body(c))]
         okk = all(e == "Err{Error{InsufficientSize{}, 0}}" for e in errs) and all(c == "Error{InsufficientSize{}, 0}" for c in cl) and (errs or cl)
         R.ob("K1.errkind", fn, "does-not-fit", bool(okk), "%s: content that does not fit is reported as InsufficientSize" % fn, where=b["span"])
+        if not known_len:
+            # E4: all-or-error for a source of unknown length: every item goes through the fallible push, a refused push is the
+            # InsufficientSize exit, and Ok is returned only once the source is exhausted (no size_hint shortcut, no silent truncation).
+            nx = [(bb, t) for bb, t in body.calls() if call_matches(body.expr_of_call(t, 0, bb), "Iterator::next", "next")]
+            pushes = [(bb, t) for bb, t in body.calls() if ((t["call"].get("res") or {}).get("def") or t["call"].get("def", "")).endswith("GenericVec::<C, L>::push")]
+            ok4, why = True, []
+            if len(nx) != 1 or len(pushes) != 1 or len(fills) != 1:
+                ok4 = False
+                why.append("expected one Iterator::next and one fallible push as the only fill operation (next: %d, push: %d, fill calls: %d)" % (len(nx), len(pushes), len(fills)))
+            else:
+                nbb, nt = nx[0]
+                pbb, pt = pushes[0]
+                sw = body.term(nt["target"]) if nt.get("target") is not None else None
+                none_edge = some_edge = None
+                if isinstance(sw, dict) and "switch" in sw:
+                    for v, tgt in sw["targets"]:
+                        if int(v) == 0:
+                            none_edge = (nt["target"], tgt)
+                        elif int(v) == 1:
+                            some_edge = (nt["target"], tgt)
+                if none_edge is None or some_edge is None:
+                    ok4 = False
+                    why.append("the result of next() is not matched on None/Some directly")
+                else:
+                    oks = [bb for bb, r in ret_stores(body) if r.startswith("Ok{")]
+                    if not oks or not all(body.edge_dominates(none_edge, o) for o in oks):
+                        ok4 = False
+                        why.append("an Ok return is reachable without the source being exhausted")
+                    if not body.edge_dominates(some_edge, pbb):
+                        ok4 = False
+                        why.append("push is not on the Some edge of next()")
+                    item = ab(canon(body.expr_of_call(pt, 0, pbb)[3][1]))
+                    if "as Some).0" not in item or "Iterator::next" not in item:
+                        ok4 = False
+                        why.append("the pushed value is not the item just taken from the source (%s)" % item[:80])
+                    # the refusal edge
+                    handled = False
+                    for sbb, st in body.switches():
+                        c = ab(canon(body.expr_of_operand(st["switch"])))
+                        if "gv::push(" not in c:
+                            continue
+                        if c.startswith("core::result::Result::<T, E>::is_err("):
+                            err_t, ok_t = st["otherwise"], [b_ for v, b_ in st["targets"] if int(v) == 0][0]
+                        elif c.startswith("core::result::Result::<T, E>::is_ok("):
+                            ok_t, err_t = st["otherwise"], [b_ for v, b_ in st["targets"] if int(v) == 0][0]
+                        elif c.startswith("discr("):
+                            tg = dict((int(v), b_) for v, b_ in st["targets"])
+                            ok_t, err_t = tg.get(0), tg.get(1, st["otherwise"])
+                        else:
+                            continue
+                        region = body.reachable_from(err_t, avoid=[nbb])
+                        rr = [r for _, r in ret_stores(body, region)]
+                        if rr == ["Err{Error{InsufficientSize{}, 0}}"] and nbb not in region and nbb in body.reachable_from(ok_t):
+                            handled = True
+                    if not handled:
+                        ok4 = False
+                        why.append("a refused push does not lead straight to Err(InsufficientSize) (or an accepted one does not continue with the next item)")
+            # a lower-bound size_hint cannot decide "does not fit", so there is no refusal before the reset for such a source: every
+            # Err exit of its own comes after the reset, which is what keeps a composite valid when this emplacer fails as its tail (C18).
+            err_bbs = [bb for bb, r in ret_stores(body) if r.startswith("Err{")]
+            if em and not all(body.dominates(em[0][0], e) for e in err_bbs):
+                ok4 = False
+                why.append("an error exit is taken before the target was reset to empty (for a source of unknown length a pre-check cannot replace the reset)")
+            R.ob("E4.all-or-error", fn, "fill-loop", ok4,
+                 "%s: every item of the source is appended with the fallible push; the first refusal returns InsufficientSize; Ok only when the source is exhausted%s" % (
+                     fn, "" if ok4 else " -- " + "; ".join(why)), where=b["span"])
